@@ -80,6 +80,8 @@ def model_case(case):
     if c.get("op") == "tree":
         c["tree"] = expand_refs(c["tree"])
         c["ops"] = [[o[0], o[1], expand_refs(o[2])] if o[0] == "add_at" else [o[0], expand_refs(o[1])] if o[0] == "add" else o for o in c["ops"]]
+    if c.get("op") == "column":
+        c["cols"] = [[cw, [expand_refs(x) for x in items]] for cw, items in c["cols"]]
     if c.get("op") == "keytree":
         c["tree"] = expand_refs(c["tree"]); c.pop("raise_on", None)
     if c.get("op") == "gridseq":
@@ -114,7 +116,7 @@ def plain_compare(case, impl, model):
     if case.get("op") == "gridseq":
         if impl["steps"] != model: return "implementation %s  /  model %s" % (json.dumps(impl["steps"], ensure_ascii=False)[:600], json.dumps(model, ensure_ascii=False)[:600])
         return None
-    if case.get("op") == "tree" and isinstance(impl, list) and isinstance(model, list) and len(impl) == len(model):
+    if case.get("op") in ("tree", "column") and isinstance(impl, list) and isinstance(model, list) and len(impl) == len(model):
         return tree_compare(case, impl, model)
     if impl != model:
         return "implementation %s  /  model %s" % (json.dumps(impl, ensure_ascii=False)[:600], json.dumps(model, ensure_ascii=False)[:600])
